@@ -44,3 +44,43 @@ def analysed(db: DB, lcs: List[LaunchCtx]) -> dict:
 
 STEP_ENTRIES = ["forward.step", "forward.forward", "forward.step1", "forward.step2"]
 PUBLIC_SIM_ENTRIES = STEP_ENTRIES + ["io.reset_data", "support.get_state", "support.set_state", "inverse.inverse"]
+
+
+_MASK_CANARY = """
+def f(m, d, reset=None):
+  if reset.dtype in (wp.int8, wp.uint8):
+    reset_input = reset.view(wp.bool)
+"""
+
+
+def _reinterpreting_views(fn_node, param):
+  import ast
+
+  out = []
+  for n in ast.walk(fn_node):
+    if isinstance(n, ast.Call) and isinstance(n.func, ast.Attribute) and n.func.attr == "view":
+      r = n.func.value
+      while isinstance(r, (ast.Attribute, ast.Subscript, ast.Call)):
+        r = r.value if not isinstance(r, ast.Call) else r.func
+      if isinstance(r, ast.Name) and r.id == param:
+        out.append(n)
+  return out
+
+
+def check_mask_normalisation(res: Result, db: DB, func_key: str, param: str) -> int:
+  """R-VALID.5: a user-supplied per-world mask reaches the kernels as a genuine wp.bool array - the argument itself when
+  its dtype is wp.bool, or a fresh bool array filled by a value cast. A reinterpreting `.view(...)` of an integer mask is
+  not a cast: Warp's generated `!b` on a byte other than 0/1 is not C truthiness, so selected worlds would be skipped."""
+  import ast
+
+  from ..report import Finding
+
+  assert _reinterpreting_views(ast.parse(_MASK_CANARY), "reset"), "canary: the .view() matcher lost its positive example"
+  fi = db.sm.func(func_key)
+  bad = _reinterpreting_views(fi.node, param)
+  res.ob(
+    not bad,
+    f"{func_key}|{param}|mask-normalisation",
+    Finding("R-VALID.5", f"{func_key}|{param}|reinterpreted-mask", f"the mask argument `{param}` is reinterpreted with .view() instead of being value-cast to bool: entries other than 0/1 are not treated as True by the kernels' `if not mask[worldid]` test", f"{fi.file}:{bad[0].lineno}" if bad else fi.file),
+  )
+  return 1
